@@ -103,7 +103,7 @@ def run(tier, args):
         try:
             rc, out, err = common.run_child([exe] + argv, timeout=watchdog)
         except common.HarnessError as e:
-            return argv, None, b"", str(e).encode()
+            return argv, None, getattr(e, "partial_stdout", b""), str(e).encode()
         return argv, rc, out, err
 
     tot = {k: 0 for k in SUM_KEYS}
@@ -137,8 +137,18 @@ def run(tier, args):
             continue
         try:
             res = json.loads(out.decode().strip().splitlines()[-1])
+            if "violations" not in res:
+                raise ValueError("no summary line")
         except Exception:
-            # killed without a sanitizer report or a summary (e.g. by the kernel's OOM killer): inconclusive, not an alarm
+            # killed without a sanitizer report or a summary (e.g. RSS limit / OOM killer): the counterexamples the driver wrote
+            # out before it died count; the run itself is inconclusive, not an alarm
+            for l in out.decode(errors="replace").splitlines():
+                if l.startswith('{"early_violation"'):
+                    try:
+                        v = json.loads(l)["early_violation"]
+                        chk.violation(v["key"], v["what"] + " [driver died afterwards, rc=%s]" % rc, {"argv": argv})
+                    except Exception:
+                        pass
             dead.append("driver %s rc=%s produced no summary: %s" % (argv, rc, err[-300:]))
             continue
         fresh_alarm = False
